@@ -157,8 +157,9 @@ def run(tier, seed, replay_file):
     second = CONFIGS[(seed + 1 + seed // n) % n]
     jobs = []
     if not big:
-        jobs.append(("design-client", design, ("design-client", primary, "client", True, 2)))
-        jobs.append(("design-server", design, ("design-server", primary, "server", seed % 2 == 0, 2)))
+        # two operators for one role (by seed), one for the other: the thorough tier does both with two
+        jobs.append(("design-client", design, ("design-client", primary, "client", True, 2 if seed % 2 else 1)))
+        jobs.append(("design-server", design, ("design-server", primary, "server", seed % 3 != 0, 1 if seed % 2 else 2)))
         jobs.append(("graph-client", graph, ("graph-client", primary, "client", True, 1, None)))
         jobs.append(("graph-server", graph, ("graph-server", primary, "server", True, 1, None)))
         jobs.append(("graph-client-foreign", graph, ("graph-client-foreign", second, "client", False, 1, 400)))
